@@ -37,6 +37,12 @@ PROPERTIES = {
         "explanation": "same units/configurations as C03 with the accounting post-conditions against a reference set-associative cache (valid,tag per way + policy): hit <=> resident before, residency/policy after = reference (write-allocate for wb, no-write-allocate for wt), counters and miss penalty; uncounted reads and direct writes leave counters untouched",
         "configs": {"quick": "as C03", "thorough": "as C03"},
     },
+    "C11": {
+        "modules": ["contracts.icache"],
+        "level": "proof",
+        "explanation": "per enumerated geometry/policy: read_instruction on ANY well-formed instruction-cache state over a program of 2 instructions at arbitrary aligned addresses returns the very object stored in the instruction memory, accounting/residency/policy equal the reference, reset() leaves no valid block and zero counters; SingleStage/IF stage fetch exactly once iff an instruction is at pc",
+        "configs": {"quick": "ib,bb,assoc in {(0,0,1),(1,0,1),(0,1,1),(0,0,2)} x {lru,plru}", "thorough": "quick + {(1,1,1),(1,0,2),(0,1,2)}"},
+    },
     "C12": {
         "modules": ["contracts.cache"],
         "level": "proof",
@@ -74,7 +80,7 @@ PROPERTIES = {
 }
 
 PENDING = "check not built yet in this session (planned, see DESIGN.md section 4)"
-NOT_APPLICABLE = {p: PENDING for p in ["C02", "C04", "C05", "C07", "C08", "C11", "C13", "C14", "C15", "C16"]}
+NOT_APPLICABLE = {p: PENDING for p in ["C02", "C04", "C05", "C07", "C08", "C13", "C14", "C15", "C16"]}
 
 _T = "contract-based deductive verification: VCs from symbolic execution of the real AST, z3"
 MANIFEST_TEXT = {
@@ -87,6 +93,9 @@ MANIFEST_TEXT = {
     "C09": {"text": "Proof per enumerated configuration: hit flag, hit/access counters, last-hit flag, miss-penalty cycles, residency and replacement state after every operation equal those of a reference set-associative cache fed the same access, for any well-formed pre-state; uncounted reads and parser preloads leave the counters untouched.",
             "note": "Reference policies are the real LRU/PLRU classes used through their C10 contracts. 'Identical in both modes / once per load or store' is proved per instruction class (one counted access in behavior() and in the MEM stage) and otherwise inherits C02's level.",
             "technique": _T + ", per-configuration refinement of a reference cache"},
+    "C11": {"text": "Proof per enumerated configuration: a fetch at an address holding an instruction returns that very instruction object from any well-formed cache state (view invariant proved inductive), access/hit counters, last-hit flag, miss penalty, residency and policy equal a reference cache, reset() clears blocks and counters, and the single-stage and IF-stage code fetch exactly once per instruction at pc and never otherwise.",
+            "note": "Program of K=2 instructions at arbitrary aligned addresses stands for 'any program' (a fetch involves at most the instructions of one block; larger blocks are in the thorough set). Ghost fact: instruction memory unchanged since the last reset (parser call order, C13). Program-level transparency in both modes inherits C01/C02. Geometries outside the set are not proved.",
+            "technique": _T + ", per-configuration inductive view invariant"},
     "C12": {"text": "Proof per enumerated configuration as state invariants after every operation: write-through backing == logical and resident block == backing block; write-back backing may differ only at resident addresses and eviction never loses a written value.",
             "note": "Same assumptions and configuration set as C03.",
             "technique": _T + ", per-configuration inductive invariants"},
